@@ -4,7 +4,7 @@ from numbers import Integral
 import numpy as np
 from numpy.lib.mixins import NDArrayOperatorsMixin
 
-from ._slicing import normalize_index
+from ._slicing import check_index, normalize_index, posify_index, sanitize_index
 from ._sparse_array import SparseArray
 from ._utils import equivalent
 
@@ -325,6 +325,7 @@ class DOK(SparseArray, NDArrayOperatorsMixin):
         if len(key) > 0 and all(isinstance(k, Iterable) for k in key):
             if len(key) != self.ndim:
                 raise NotImplementedError(f"Index sequences for all {self.ndim} array dimensions needed!")
+            key = self._fancy_key(key)
             if not all(len(key[0]) == len(k) for k in key):
                 raise IndexError("Unequal length of index sequences!")
             return self._fancy_getitem(key)
@@ -334,6 +335,12 @@ class DOK(SparseArray, NDArrayOperatorsMixin):
             ret = ret.asformat("dok")
 
         return ret
+
+    def _fancy_key(self, key):
+        """Index sequences as arrays of in-bounds, non-negative positions"""
+        for k, dim in zip(key, self.shape, strict=True):
+            check_index(k, dim)
+        return posify_index(self.shape, tuple(sanitize_index(k).astype(np.intp) for k in key))
 
     def _fancy_getitem(self, key):
         """Subset of fancy indexing, when all dimensions are accessed"""
@@ -356,12 +363,18 @@ class DOK(SparseArray, NDArrayOperatorsMixin):
             key = (Ellipsis,)
 
         # 1D fancy indexing
-        if self.ndim == 1 and isinstance(key, Iterable) and all(isinstance(i, int | np.integer) for i in key):
+        if (
+            self.ndim == 1
+            and isinstance(key, Iterable)
+            and not isinstance(key, tuple)
+            and all(isinstance(i, int | np.integer) for i in key)
+        ):
             key = (key,)
 
         if isinstance(key, tuple) and all(isinstance(k, Iterable) for k in key):
             if len(key) != self.ndim:
                 raise NotImplementedError(f"Index sequences for all {self.ndim} array dimensions needed!")
+            key = self._fancy_key(key)
             if not all(len(key[0]) == len(k) for k in key):
                 raise IndexError("Unequal length of index sequences!")
             self._fancy_setitem(key, value)
